@@ -102,6 +102,24 @@ func Mutants(toks []Tok) []Mutant {
 			}
 		}
 	}
+	// malformed identifiers: '!' only ever BEGINS a name (ignoredTokId : '!' _tokId); by the longest-match reading of
+	// the documented lexical rules x!y is the token x followed by the ignored-token name !y, and no sentence has an
+	// identifier directly followed by an ignored-token name. Every occurrence of the first name of each kind is
+	// respelled consistently (so that nothing but the lexical shape is wrong with the file).
+	seenKind := map[string]bool{}
+	for _, t := range toks {
+		if (t.Kind == "tokId" || t.Kind == "prodId" || t.Kind == "regDefId" || t.Kind == "ignoredTokId") && !seenKind[t.Kind] && t.Text != "empty" && t.Text != "error" {
+			seenKind[t.Kind] = true
+			bad := t.Text + "!x"
+			m := cloneToks(toks)
+			for i := range m {
+				if m[i].Kind == t.Kind && m[i].Text == t.Text {
+					m[i] = Tok{"junk", bad}
+				}
+			}
+			out = append(out, Mutant{"badid", fmt.Sprintf("respell every %s as %s", t.Text, bad), m, false})
+		}
+	}
 	// ... and to the text of each string literal of the file that is spelled like such a name (a literal is a token,
 	// it does not define the production or regular definition of the same spelling)
 	for _, l := range toks {
